@@ -9,6 +9,12 @@ CLAIMED = {
     "C01": ("runtime monitoring: boundary recorder on ValueIteration/PolicyIteration.plan_on + array purity sentinel, oracle = independent reference V*/Q* with bounds derived from the coded stopping rule, over seeded random MDP families",
             "Held-on-K-executions evidence: every generated MDP/config is solved by the real code and compared with an independent reference solver (values, absorbing/placeholder clauses, tie-sharing policy, exact return of the returned policy, agreement of the two VI versions, batch entry point). Exploration is the right level: the property quantifies over all finite MDPs and only sampled executions can be observed.",
             "trusts mon/ref/mdp.py (plain numpy VI + exact policy evaluation, certified to 1e-9) and float64; small models (<=12 states)", "§4 C01"),
+    "C02": ("runtime monitoring: boundary recorder on TabularPolicy.evaluate_on / Policy.to_tabular + purity sentinel; oracle = independent linear-solve / SCC policy evaluation plus Bellman-expectation self-consistency of msdm's own numbers",
+            "Held-on-K-executions: each generated (MDP, stochastic policy) pair is evaluated by the real code and compared entry-wise (state/action values, exact -inf pattern, occupancies, initial value) with an independent reference. Exploration is the right level for an all-inputs numerical property.",
+            "trusts mon/ref/mdp.py (numpy solve + own Tarjan SCC) and float64 with condition-number-scaled tolerances", "§4 C02"),
+    "C06": ("runtime monitoring: boundary recorder on every array/table accessor, from_matrices and the quick wrappers; element-wise oracle against the spec's functions; reachability oracle for inferred lists and max_states",
+            "Held-on-K-executions: every listed view of every generated MDP is compared element-wise with the functions it was built from, and rebuilt/wrapped copies are compared bitwise and by planning result. Exploration: the property quantifies over all MDP definitions and label kinds.",
+            "trusts the generator's spec dictionaries and mon/ref/mdp.Arr; known findings C06 (ii)/(iii) are mechanism-keyed in known_findings.json", "§4 C06"),
 }
 
 PENDING_REASON = "check not built yet in this round (design in DESIGN.md §4); not claimed until its monitor exists and is silent on the unchanged tree"
